@@ -58,6 +58,9 @@ CLAIMED = {
     "C06": ("grammar-generated remote programs in three forms (string, function with generated kwargs, module) executed on real popen/socket/via/main_thread_only gateways; differential oracle against a local interpretation with a recording channel; traceback line oracle; generated must-reject function shapes with a wire/byte-count oracle",
             "Programs generated from a statement grammar (sends, loops, imports, try/except, refused explicit close, stdio writes up to 1 MB on every stream, a raise at a generated statement, a park in receive) are rendered as source strings, functions in generated module files with kwargs of all serialisable types, and modules, and run on real gateways of every transport; a local interpretation predicts every item, the RemoteError must name the generated file and the exact line, the channel must be open while the body is parked and end exactly when it finishes, rejected function shapes must raise locally with nothing written and no channel id consumed.",
             "Real workers; comprehensions/inner defs not generated. Worker stderr redirected to /dev/null.", "3/C06"),
+    "C15": ("generated channel programs on every bootstrap path x isolated interpreters (-I -S, CPython 3.10-3.13) x execmodels with the C02 transcript oracle and remote preconditions; exhaustive sweep of the shipped sources' imports and free names",
+            "Generated conversation programs run on workers bootstrapped by import, python=, via an isolated forwarder, socket via an isolated host, the stand-alone socketserver.py under an isolated interpreter and a stub-ssh path, on every CPython present started with -I -S; each case first verifies remotely that execnet is not importable there, then applies the C02 transcript oracle and finally requires that no execnet module got loaded. A finite-domain sweep executes every import statement of the shipped sources in every isolated interpreter and resolves every global name used in functions of the bootstrap source.",
+            "ssh only through a local stub; vagrant not exercised; gevent/eventlet unavailable without site-packages. The static part is an exhaustive enumeration, reported as such.", "3/C15"),
 }
 
 NOT_APPLICABLE = {}
